@@ -13,6 +13,7 @@ import (
 	"fmt"
 	"math/rand"
 	"sort"
+	"sync"
 )
 
 // Profile is one concrete refinement.
@@ -418,4 +419,47 @@ func Diff(want, got []uint64) string {
 		}
 	}
 	return fmt.Sprintf("want %d values, got %d; first missing %v, first extra %v", len(want), len(got), missing, extra)
+}
+
+var (
+	cacheMu sync.Mutex
+	cache   = map[string]*Profile{}
+)
+
+// Cached is Make with memoisation (profiles are immutable once built).
+func Cached(inner, keyset string, K, M int, seed int64) *Profile {
+	key := fmt.Sprintf("%s|%s|%d|%d|%d", inner, keyset, K, M, seed)
+	cacheMu.Lock()
+	defer cacheMu.Unlock()
+	if p, ok := cache[key]; ok {
+		return p
+	}
+	p := Make(inner, keyset, K, M, seed)
+	cache[key] = p
+	return p
+}
+
+// Probes returns a small set of concrete values that decides membership block by block:
+// each block's lowest, highest and a middle value (owner = the abstract element) and the
+// neighbours just outside a block when they belong to no block (owner = -1). Sorted.
+func (p *Profile) Probes() (vals []uint64, owner []int) {
+	n := p.N()
+	for i := 0; i < n; i++ {
+		b := p.Blocks[i]
+		lo, hi := b[0], b[len(b)-1]
+		if lo > 0 && (i == 0 || p.Hi(i-1) < lo-1) {
+			vals, owner = append(vals, lo-1), append(owner, -1)
+		}
+		vals, owner = append(vals, lo), append(owner, i)
+		if len(b) > 2 {
+			vals, owner = append(vals, b[len(b)/2]), append(owner, i)
+		}
+		if len(b) > 1 {
+			vals, owner = append(vals, hi), append(owner, i)
+		}
+		if hi != ^uint64(0) && (i == n-1 || p.Lo(i+1) > hi+1) {
+			vals, owner = append(vals, hi+1), append(owner, -1)
+		}
+	}
+	return vals, owner
 }
